@@ -48,7 +48,9 @@ def check_world(world, top):
             cmd.append(e["file"])
             pr = subprocess.run(cmd, cwd=cfg0["directory"], capture_output=True, text=True, timeout=60)
             tus += 1
-            if pr.returncode != 0 or pr.stderr.strip():
+            # (free text in a disabled block makes gcc remark on an open quote; it still skips the block)
+            diag = [l for l in pr.stderr.split("\n") if re.search(r"\b(warning|error):", l)]
+            if pr.returncode != 0 or any("missing terminating" not in l for l in diag) or (pr.stderr.strip() and not diag):
                 bad.append({"entry": [p["name"], ei], "gcc_diagnostic": pr.stderr[:400]})
                 continue
             got = set(re.findall(r"int F(\d+)_L(\d+);", pr.stdout))
